@@ -385,7 +385,88 @@ func childEpRemoveBusy(a []string) string {
 	return "ok"
 }
 
+// ep.makelate <rounds>: a handler is registered while the shutdown of the connection waits for the table: the removal of
+// another handler holds the table (its close callback takes its time), the peer hangs up, and then a new handler is
+// asked for.  Whoever gets the table first afterwards, the new handler's close callback runs exactly once.
+func childEpMakeLate(a []string) string {
+	log.SetOutput(ioutil.Discard)
+	rounds, _ := strconv.Atoi(a[0])
+	for round := 0; round < rounds; round++ {
+		st := &gateStream{in: make(chan []byte, 8), eof: make(chan struct{}), entered: make(chan struct{}), gate: make(chan struct{}), closed: make(chan struct{})}
+		close(st.gate) // Close returns at once
+		ep := qnet.NewEndPoint(st)
+		hold := make(chan struct{})
+		inCloser := make(chan struct{})
+		qa := make(chan *qnet.Message, 1)
+		idA := ep.MakeHandler(func(*qnet.Header) (bool, bool) { return false, true }, qa, func(error) { close(inCloser); <-hold })
+		var cC int64
+		qc := make(chan *qnet.Message, 1)
+		ep.MakeHandler(func(*qnet.Header) (bool, bool) { return false, true }, qc, func(error) { atomic.AddInt64(&cC, 1) })
+		removed := make(chan struct{})
+		go func() { ep.RemoveHandler(idA); close(removed) }()
+		select {
+		case <-inCloser:
+		case <-time.After(2 * time.Second):
+			return "fail:the close callback of the removed handler did not run"
+		}
+		close(st.eof) // the peer hangs up: the shutdown has to wait for the table
+		select {
+		case <-st.entered:
+		case <-time.After(2 * time.Second):
+			return "fail:the stream is not closed after the peer hung up"
+		}
+		time.Sleep(2 * time.Millisecond)
+		var cB int64
+		qb := make(chan *qnet.Message, 1)
+		made := make(chan struct{})
+		go func() {
+			ep.MakeHandler(func(*qnet.Header) (bool, bool) { return false, true }, qb, func(error) { atomic.AddInt64(&cB, 1) })
+			close(made)
+		}()
+		time.Sleep(2 * time.Millisecond)
+		close(hold)
+		for _, ch := range []chan struct{}{removed, made} {
+			select {
+			case <-ch:
+			case <-time.After(3 * time.Second):
+				return "fail:an operation on the handler table did not return"
+			}
+		}
+		deadline := time.Now().Add(2 * time.Second)
+		for (atomic.LoadInt64(&cB) == 0 || atomic.LoadInt64(&cC) == 0) && time.Now().Before(deadline) {
+			time.Sleep(200 * time.Microsecond)
+		}
+		time.Sleep(time.Millisecond)
+		if n := atomic.LoadInt64(&cC); n != 1 {
+			return fmt.Sprintf("fail:the close callback of a handler registered before the loss ran %d times", n)
+		}
+		if n := atomic.LoadInt64(&cB); n != 1 {
+			return fmt.Sprintf("fail:the close callback of the handler registered during the shutdown ran %d times", n)
+		}
+		select {
+		case _, ok := <-qb:
+			if ok {
+				return "fail:message after the close"
+			}
+		case <-time.After(time.Second):
+			return "fail:the queue of the handler registered during the shutdown is not closed"
+		}
+	}
+	return "ok"
+}
+
 func init() {
+	children["ep.makelate"] = childEpMakeLate
+	executors["ep.makelate"] = func(a []string) string {
+		out := runChild("ep.makelate", strings.Join(a, " "), 60*time.Second, 0)
+		if out.Result != "ok" {
+			lastFailDetail = out.Stderr
+		}
+		if out.Result == "crash" || out.Result == "crash-noresult" {
+			return "crash"
+		}
+		return out.Result
+	}
 	children["ep.removebusy"] = childEpRemoveBusy
 	executors["ep.removebusy"] = func(a []string) string {
 		out := runChild("ep.removebusy", strings.Join(a, " "), 30*time.Second, 0)
@@ -577,6 +658,11 @@ func runC17(r *Rand, tier string, o *Out) {
 		}
 		o.Count("op:" + c[1] + "-while-a-reply-waits")
 	}
+	// a handler asked for while the shutdown waits for the table
+	if res := o.Do("P", "ep.makelate 12", true); res != "ok" {
+		o.Fail("handler registered during the shutdown: "+strings.TrimPrefix(res, "fail:"), "ep.makelate 12 => "+res+" "+tail(lastFailDetail, 400))
+	}
+	o.Count("op:make-while-the-shutdown-waits")
 	_ = sort.Ints
 }
 
